@@ -19,8 +19,16 @@ class Undefined(Exception):
     """the statement defines no value (division by a calendar that is 0 on that date)"""
 
 
-def build(ast, keep=None):
-    """keep: optional list that receives the mutable containers handed to the constructors (the caller's own objects)"""
+def build(ast, keep=None, reg=None):
+    """keep: optional list that receives the mutable containers handed to the constructors (the caller's own objects);
+    reg: optional list that receives (sub-expression, calendar object) for every calendar built on the way"""
+    c_ = _build(ast, keep, reg)
+    if reg is not None and ast[0] != 'num':
+        reg.append((ast, c_))
+    return c_
+
+
+def _build(ast, keep, reg):
     k = ast[0]
 
     def mine(c):
@@ -46,7 +54,7 @@ def build(ast, keep=None):
         return FixedCalendar(ast[1], ast[2], ast[3])
     if k == 'num':
         return ast[1]
-    a, b = build(ast[1], keep), build(ast[2], keep)
+    a, b = build(ast[1], keep, reg), build(ast[2], keep, reg)
     if k == 'add':
         return a + b
     if k == 'sub':
